@@ -229,3 +229,19 @@ def plain_fields_shim(sf, name, shim_name):
     if not fields:
         raise Undecided("struct %s has no plain fields" % name)
     return "pub struct %s { %s }\n" % (shim_name, ", ".join("pub %s: %s" % f for f in fields)), c
+
+
+def r14_map_or(cut):
+    """R14 (generic): RECV.map_or(D, |x| E) -> (match RECV { Some(x) => E, None => D }) for a receiver that is a chain of field
+    accesses / calls without nested parentheses and a closure body without a block (definition of Option::map_or)."""
+    pat = re.compile(r"((?:\*?self|\w+)(?:\s*\.\s*\w+(?:\([^()]*\))?)*)\s*\.\s*map_or\(\s*([^,()|]+?)\s*,\s*\|(\w+)\|\s*([^(){};]+?)\s*\)")
+    n = 0
+    while True:
+        m = pat.search(cut.text)
+        if not m:
+            break
+        cut.text = cut.text[:m.start()] + "(match %s { Some(%s) => %s, None => %s })" % (m.group(1), m.group(3), m.group(4), m.group(2)) + cut.text[m.end():]
+        n += 1
+    if n:
+        cut.log.append("R14 x%d Option::map_or(d, |x| e) -> match" % n)
+    return n
